@@ -20,7 +20,9 @@ CONFIG = {
     "harness_timeout": {"quick": 600, "thorough": 6000},
     "rule": "designed cases first (the non-contiguous witness, contiguous groups of the same files in both modes, blocks of exactly 1000 points with a tombstone cutting a "
             "full block, 42 small overlapping blocks of one key, a key of maximal length with all five value types, a crash at every step, every failure kind, a snapshot "
-            "with duplicates and writes during the flush, the planner while a level-1 compaction is running), then seeded generation: file sets of 1-6 generations x 1-3 "
+            "with duplicates and writes during the flush, the planner while a level-1 compaction is running, a whole-series FileStore.Delete issued from the compactor's "
+            "file-name callback right after the block iterators were created (key held by the group / by no member, both modes), a roll-over at the writer's limit where the "
+            "last key has exactly 65535 one-point blocks; thorough tier adds 65534/65536 blocks, Size=1 full mode and roll-overs landing on a key boundary), then seeded generation: file sets of 1-6 generations x 1-3 "
             "sequences written with the real TSMWriter (keys in only some files, overlapping blocks, blocks of exactly Size, tombstones through the real "
             "TSMReader.DeleteRange/Delete, 5 value types, times at both ends of the range), Size in {2,3,1000}, CompactFull/CompactFast on contiguous whole-generation "
             "groups (12% groups that jump over generations), crashes injected through the FileStore observer at a random step, failures (compactor closed, compactions "
@@ -32,6 +34,8 @@ CONFIG = {
         "C09: block boundaries chosen by tsmBatchKeyIterator (fast path, pass-through of full blocks) are NOT modelled; the observed index entries and decoded blocks of every output are checked against the executable spec blocks_okb/entries_okb, the logical content per key against the model",
         "C09: the planner is monitored, not modelled: every group the real DefaultPlanner returns is checked in Coq against the hypothesis of compact_preserves_reads (spec_plan) and compacted by the real Compactor with reads compared (CPlanned cases)",
         "C09: crash = error injected through tsdb.FileStoreObserver before the n-th rename/remove of a .tsm file, then the FileStore is closed and a new one opened on the directory; the order rename-before-remove and tsm-before-tombstone is re-read from the source by genconsts",
+        "C09: roll-over cases (tens of thousands of blocks) are too large for the quadratic layer-A merge: they are judged by the executable spec on the implementation's observation (reads before = after, outputs within the block-count limit, fresh names) and the model of write/writeNewFiles (split_files) is compared on the implementation's own block stream; only ascending reads are taken (the cursor is quadratic in the number of blocks); the 2GB size limit is not exercised",
+        "C09: a delete during a running compaction is injected only at the first file-name callback (before the first block is read); later interleavings need >1MB blocks (RateLimit callbacks fire per 1MB write buffer) and are not generated; what the deleted key itself reads afterwards is C10's subject",
         "C09: reader errors are injected by overwriting the type byte of one block (decoders reject it); block checksums are never validated by the reader, so a flipped payload byte is garbage-in and is not part of the check",
     ],
     "modelled": "Compactor.compact (output generation/sequence, per-key merge newest-wins with tombstones), writeNewFiles/write (roll-over at maxIndexEntries), cacheKeyIterator (dedup, chunking), "
